@@ -120,7 +120,12 @@ pub(super) fn eval_binary_arith_expression(
                 Div => l / r,
                 Rem => l % r,
             };
-            Ok(ConstantValue::Float(a))
+            // inf and NaN can't be spelled as a number in .ui nor as a C++ literal
+            if a.is_finite() {
+                Ok(ConstantValue::Float(a))
+            } else {
+                Err(ExpressionError::FloatNotFinite)
+            }
         }
         (ConstantValue::CString(l), ConstantValue::CString(r)) => match op {
             Add => Ok(ConstantValue::CString(l + &r)),
